@@ -368,7 +368,7 @@ PROPS["C11"] = {'claimed': True,
  'design_ref': 'DESIGN.md section 4, C11',
  'assumptions': ['single station']}
 
-PROPS["C12"] = {'claimed': False,
+PROPS["C12"] = {'claimed': True,
  'coq': 'Properties/C12.v',
  'domains': ['fdl'],
  'nontrivial': ['tx:', 'tag:ht:accept', 'tag:reply:', 'tag:gap:reply', 'tag:gap:no-response', 'tag:check:', 'tag:lt:reply'],
@@ -386,15 +386,49 @@ PROPS["C12"] = {'claimed': False,
                   'from active.rs',
                   'harness PHY / scripted applications / scripted environment of harness/src/fdl.rs; monitors of coq/Model/FdlOracle.v (extracted) '
                   "run on the implementation's transcript"],
- 'technique': 'Coq one-step theorems about the Gallina model of the FDL active station + differential correspondence poll by poll + executable '
-              "monitor of the property on the implementation's transcript",
- 'level_text': 'One-step theorems: the next GAP address is strictly inside (TS, NS) cyclically, below HSA, never TS, for all triples (F1 fixed). The '
-               'monitor checks GAP poll addresses, one poll per visit and the truthfulness of status replies on transcripts.',
- 'level_note': 'Trusted: Coq kernel, the regex translators, OCaml extraction + driver, Rust harness. The hand model is validated, not verified, '
-               'against active.rs (differential execution on the explored histories). The theorems proved so far are one-step facts about the model; '
-               'the history-level theorems of DESIGN.md section 4 are not yet proved, so nothing is claimed in MANIFEST.json.',
- 'partial_gap': 'only one-step theorems are proved; the invariant / history-level theorems planned in DESIGN.md section 4 (C12_poll_in_gap (whole '
-                'poll), C12_one_per_visit, C12_sweep_bound, C12_found_becomes_successor, C12_status_reply_truth) are open',
+ 'technique': 'Coq proofs (whole-poll theorems for every station state and input, one history induction, a ranking-function argument, forward timing '
+              'lemmas) about the Gallina model of the FDL active station + differential correspondence poll by poll + executable monitor of the '
+              "property on the implementation's transcript",
+ 'level_text': 'Machine-checked theorems (Coq 8.16.1, closed under the global context) over the model of src/fdl/active.rs, each for ALL station '
+               'states (reachable or not), ALL inputs of a poll (time, PHY busy flag, receive buffer, applications) and ALL parameters: '
+               'C12_poll_transmissions classifies every transmission of a poll as application telegram / token / GAP status request / status reply, '
+               'so the GAP requests are exactly the polls that transmit and end in AwaitStatusResponse a or ClaimToken::ScanAwaitResponse a; '
+               'C12_poll_in_gap: for those, a is strictly between TS and NS cyclically (a <> TS, a <> NS), below HSA when TS and the cursor were, '
+               'for all (TS, NS, HSA, cursor) incl. NS=TS, NS=TS-1, NS=HSA-1, TS=HSA-1, TS=0 (F1 fixed); C12_one_per_visit (history induction over '
+               'arbitrary poll sequences with a ghost counter, plus the one-step facts that after a GAP request only the token TS->NS is '
+               'transmitted, that PassToken{do_gap} performs exactly one GAP step and that nothing else touches the GAP state; the post-claim scan '
+               'issues requests back to back until Waiting); C12_sweep_bound: for 0 <= TS,NS < HSA <= 126, gap_wait_rotations 0..254 and any GAP '
+               'state every GAP address is polled within |GAP| + gap_wait_rotations + 2 GAP steps without panic (ranking function; |GAP| proved to '
+               'be the number of GAP addresses); C12_found_becomes_successor: an accepted reply (status Ok, master ready / in ring, from the polled '
+               'address to TS, first in the buffer) applies set_next_station(a) (NS := a, LAS gets a and loses everything between, proved), the next '
+               'transmission is the token TS->a; every other outcome leaves the ring view (a time-out passes the token to the unchanged NS); '
+               'C12_status_reply_truth: a listening/idle station transmits only its claim token or the status reply to the recorded requester, a '
+               "requester is recorded only by a status request addressed to TS that is the last telegram of the poll's receive buffer, the reported "
+               'state is not-ready / ready (LAS valid and requester = PS) / in-ring exactly as coded; C12_status_reply_in_slot: the reply goes out '
+               'at the first poll later than 33 bit after the poll that received the request, i.e. at most 2P + 33 bit after the end of the request '
+               'for poll period P, and 2P + 33 bit + 11 bit (rounded up) + 1 us <= Tslot for every builder-valid parameter set (regenerated '
+               'min_slot_bits table, integer microsecond rounding included) whenever P <= Tslot/4 - no baud rate fails. The model is tied to the '
+               "crate on every run by differential execution poll by poll, and the C12 monitor runs on the crate's transcripts.",
+ 'level_note': 'Trusted: Coq kernel, the regex translators (tables and constants of active.rs / parameters.rs), OCaml extraction + driver, Rust '
+               'harness. The hand model coq/Model/Fdl.v is validated, not verified, against active.rs (differential execution on the explored '
+               "histories, 0 divergences). Theorems are about a single station's poll function; 'token visit' is abstracted as: one visit = one poll "
+               'in PassToken{do_gap: Yes} that gets past the synchronisation pause (proved to perform exactly one GAP step; the ghost-counter '
+               'theorem shows there is at most one GAP request between token transmissions). The timing theorem assumes an idle bus after the '
+               "request (empty receive buffer, PHY not busy) and polls at most P apart; the requester side of 'within the slot time' is the one-step "
+               "theorem C12_requester_keeps_waiting (new bytes restart the requester's slot timer before it is tested; no time-out up to Tslot after "
+               'its time stamp); responder and requester halves are not composed into one two-station theorem.',
+ 'partial_gap': 'PROVED (coq/Properties/C12.v, 24 theorems): C12_poll_transmissions, C12_poll_in_gap (whole poll), '
+                'C12_after_gap_request_only_the_token, C12_one_per_visit (ghost counter over poll histories), C12_visit_performs_gap_step, '
+                'C12_gap_state_frame, C12_claim_scan_back_to_back, C12_sweep_bound, C12_gap_size_counts, C12_found_becomes_successor, '
+                'C12_set_next_station_effect, C12_found_gets_next_token, C12_successor_unchanged_otherwise, C12_status_reply_truth, '
+                'C12_reply_state_truth, C12_status_request_must_be_last, C12_status_reply_in_slot, C12_slot_time_covers_reply, '
+                'C12_requester_keeps_waiting, and the earlier function-level C12_next_gap_poll_in_gap, C12_in_gapb_spec, C12_sweep_end_resets_wait, '
+                'C12_pass_token_polls_in_gap, C12_claim_scan_polls_in_gap. NOT PROVED: a multi-station statement (that the token really comes back '
+                "|GAP| + wait + 2 times, that successors 'learnt from witnessed passes' during a sweep keep the bound - the bound is per constant "
+                'NS, every NS change restarts it from an arbitrary GAP state, which the theorem covers); the sweep bound is stated over the sequence '
+                'of GAP steps, tied to polls by the one-step theorems rather than by one end-to-end history theorem; the composition of the '
+                'responder half (C12_status_reply_in_slot) and the requester half (C12_requester_keeps_waiting) of the slot-time argument into one '
+                'two-station theorem. ONLY VALIDATED: model = crate (differential), monitor on transcripts.',
  'design_ref': 'DESIGN.md section 4, C12',
  'assumptions': ['single station']}
 
